@@ -53,9 +53,11 @@ class ExprInModel(ExprModel):
                     # TODO: must handle case where size is random
                     arr : FieldArrayModel = r.fm
                     
-                    if arr.is_rand_sz:
+                    if arr.is_rand_sz and arr.is_used_rand:
                         pass
                     else:
+                        # (a list that is not random in this call contributes
+                        # the elements that it holds, whatever its declaration)
                         for i in range(int(arr.size.get_val())):
                             t = ExprBinModel(
                                 self.lhs, 
